@@ -2,6 +2,7 @@
 // through PreIteration / TestConvergence (stop anywhere, interrupt anywhere,
 // locks appearing and disappearing mid-run).  Serves C07, C08 (+C15, C20).
 #include "core.h"
+#include "sigs.h"
 #include "mix_gen.h"
 #include "libcola/cola.h"
 #include "libcola/cluster.h"
@@ -61,7 +62,7 @@ struct LayoutSession : Session {
     void run() override;
     std::string guarded(const std::function<void()> &fn) {
         try { LibScope ls; fn(); }
-        catch (vpsc::CriticalFailure &f) { HarnessScope hs; return fmt("assert@%s:%d", strstr(f.file, "lib") ? strstr(f.file, "lib") : f.file, f.line); }
+        catch (vpsc::CriticalFailure &f) { HarnessScope hs; return assertSig(f); }
         catch (cola::InvalidVariableIndexException &e) { return "InvalidVariableIndexException"; }
         catch (std::exception &e) { return "std::exception"; }
         catch (const char *) { return "char*"; }
